@@ -34,6 +34,9 @@ fn js<T: Serialize>(v: &T) -> Option<String> {
 fn jo<T: Serialize>(v: &Option<T>) -> Option<String> {
 	v.as_ref().map(|x| serde_json::to_string(x).unwrap())
 }
+fn ret_raw(args: &[Option<String>]) -> Vec<Box<serde_json::value::RawValue>> {
+	args.iter().map(|a| serde_json::value::RawValue::from_string(a.clone().unwrap_or("null".into())).unwrap()).collect()
+}
 fn ret(args: &[Option<String>]) -> Vec<Value> {
 	args.iter().map(|a| a.as_ref().map(|s| serde_json::from_str(s).unwrap()).unwrap_or(Value::Null)).collect()
 }
@@ -102,6 +105,11 @@ pub trait Api1 {
 	async fn opt_paths_named(&self, a: u64, b: ::std::option::Option<u64>, c: core::option::Option<String>) -> RpcResult<Vec<Value>>;
 	#[subscription(name = "suba" => "subaNotif", unsubscribe = "unsuba", aliases = ["ns.suba_alias", "bare_suba"], unsubscribe_aliases = ["ns.unsuba_alias", "bare_unsuba"], item = Vec<Value>)]
 	async fn suba(&self, a: u64) -> SubscriptionResult;
+	// integers wider than 64 bits (no `serde_json::Value` can hold them: arguments and results travel as raw text)
+	#[method(name = "wide")]
+	async fn wide(&self, a: u128, b: Option<i128>) -> RpcResult<Vec<Box<serde_json::value::RawValue>>>;
+	#[method(name = "wide_named", param_kind = map)]
+	fn wide_named(&self, a: i128, b: Option<u128>) -> RpcResult<Vec<Box<serde_json::value::RawValue>>>;
 }
 
 struct Impl(Log);
@@ -235,6 +243,16 @@ impl Api1Server for Impl {
 		self.0.lock().unwrap().push(("all_opt_named".into(), args.clone()));
 		Ok(ret(&args))
 	}
+	async fn wide(&self, a: u128, b: Option<i128>) -> RpcResult<Vec<Box<serde_json::value::RawValue>>> {
+		let args = vec![js(&a), jo(&b)];
+		self.0.lock().unwrap().push(("wide".into(), args.clone()));
+		Ok(ret_raw(&args))
+	}
+	fn wide_named(&self, a: i128, b: Option<u128>) -> RpcResult<Vec<Box<serde_json::value::RawValue>>> {
+		let args = vec![js(&a), jo(&b)];
+		self.0.lock().unwrap().push(("wide_named".into(), args.clone()));
+		Ok(ret_raw(&args))
+	}
 	async fn fail_with(&self, code: i32, msg: String, data: Option<P>) -> RpcResult<Vec<Value>> {
 		let args = vec![js(&code), js(&msg), jo(&data)];
 		self.0.lock().unwrap().push(("fail_with".into(), args.clone()));
@@ -272,7 +290,7 @@ impl Api1Server for Impl {
 struct PD {
 	name: &'static str,
 	optional: bool,
-	ty: u8, // 1 u64, 2 string, 3 bool, 4 array, 5 i64, 6 object
+	ty: u8, // 1 u64, 2 string, 3 bool, 4 array, 5 i64, 6 object, 7 i32, 8 u128, 9 i128
 }
 #[derive(Clone)]
 struct MD {
@@ -374,6 +392,8 @@ fn methods() -> Vec<MD> {
 		MD { key: "opt_paths", rpc_name: "ns.opt_paths", aliases: &[], map: false, params: vec![pd("a", false, 1), pd("b", true, 1), pd("c", true, 2), pd("d", true, 3)] },
 		MD { key: "opt_paths_named", rpc_name: "ns.opt_paths_named", aliases: &[], map: true, params: vec![pd("a", false, 1), pd("b", true, 1), pd("c", true, 2)] },
 		MD { key: "suba", rpc_name: "ns.suba", aliases: &["ns.suba_alias", "bare_suba"], map: false, params: vec![pd("a", false, 1)] },
+		MD { key: "wide", rpc_name: "ns.wide", aliases: &[], map: false, params: vec![pd("a", false, 8), pd("b", true, 9)] },
+		MD { key: "wide_named", rpc_name: "ns.wide_named", aliases: &[], map: true, params: vec![pd("a", false, 9), pd("b", true, 8)] },
 	]
 }
 fn desc_token(m: &MD) -> String {
@@ -420,6 +440,21 @@ fn gen_arg(rng: &mut Rng, ty: u8) -> String {
 		3 => (*rng.pick(&["true", "false"])).to_string(),
 		4 => serde_json::to_string(&(0..rng.below(4)).map(|_| rng.next() as u32).collect::<Vec<u32>>()).unwrap(),
 		5 => serde_json::to_string(&match rng.below(5) { 0 => i64::MIN, 1 => i64::MAX, 2 => -1, _ => rng.next() as i64 }).unwrap(),
+		8 => match rng.below(6) {
+			0 => u128::MAX.to_string(),
+			1 => (u64::MAX as u128 + 1).to_string(),
+			2 => "0".to_string(),
+			3 => (u64::MAX as u128).to_string(),
+			_ => (((rng.next() as u128) << 64 | rng.next() as u128) >> rng.below(128)).to_string(),
+		},
+		9 => match rng.below(7) {
+			0 => i128::MIN.to_string(),
+			1 => i128::MAX.to_string(),
+			2 => (i64::MIN as i128 - 1).to_string(),
+			3 => (u64::MAX as i128 + 1).to_string(),
+			4 => "-1".to_string(),
+			_ => ((((rng.next() as u128) << 64 | rng.next() as u128) >> rng.below(128)) as i128).to_string(),
+		},
 		7 => serde_json::to_string(&match rng.below(9) { 0 => i32::MIN, 1 => i32::MAX, 2 => -1, 3 => 0, 4 => -32700, 5 => -32602, 6 => -32000, 7 => 1, _ => rng.next() as i32 }).unwrap(),
 		_ => serde_json::to_string(&P { a: rng.next() as i64, b: gen_str_content(rng) }).unwrap(),
 	}
@@ -549,7 +584,23 @@ async fn run(lines: Vec<String>, out: &mut Out) {
 				}
 				log.lock().unwrap().clear();
 				wire.lock().unwrap().clear();
+				// results that no `Value` can hold come back as raw texts
+				let mut raw_ret: Option<String> = None;
 				let res: Result<Vec<Value>, String> = match md.key {
+					"wide" | "wide_named" => {
+						let r = if md.key == "wide" {
+							Api1Client::wide(&client, a!(0, u128), o!(1, i128)).await
+						} else {
+							Api1Client::wide_named(&client, a!(0, i128), o!(1, u128)).await
+						};
+						match r {
+							Ok(v) => {
+								raw_ret = Some(format!("[{}]", v.iter().map(|x| x.get().to_string()).collect::<Vec<_>>().join(",")));
+								Ok(vec![])
+							}
+							Err(e) => Err(e.to_string()),
+						}
+					}
 					"zero" => Api0Client::zero(&client).await.map_err(|e| e.to_string()),
 					"one" => Api0Client::one(&client, a!(0, u64)).await.map_err(|e| e.to_string()),
 					"two_opt" => Api0Client::two_opt(&client, a!(0, String), o!(1, u64)).await.map_err(|e| e.to_string()),
@@ -627,6 +678,7 @@ async fn run(lines: Vec<String>, out: &mut Out) {
 					None => "E".into(),
 				};
 				let ret_repr = match &res {
+					Ok(_) if raw_ret.is_some() => hexs(raw_ret.as_ref().unwrap()),
 					Ok(v) => hexs(&serde_json::to_string(v).unwrap()),
 					Err(e) if e.starts_with("CALL:") => e.clone(),
 					Err(e) => format!("ERR:{}", hexs(e)),
@@ -644,11 +696,17 @@ async fn run(lines: Vec<String>, out: &mut Out) {
 					for (g, s) in got.iter().zip(args.iter()) {
 						let gv: Option<Value> = g.as_ref().map(|x| serde_json::from_str(x).unwrap());
 						let sv: Option<Value> = s.as_ref().map(|x| serde_json::from_str(x).unwrap());
-						if gv != sv {
+						if gv != sv || (raw_ret.is_some() && g != s) {
 							return Err(format!("server received {g:?}, client passed {s:?}"));
 						}
 					}
 					match &res {
+						Ok(_) if raw_ret.is_some() => {
+							let want = format!("[{}]", got.iter().map(|x| x.clone().unwrap_or("null".into())).collect::<Vec<_>>().join(","));
+							if raw_ret.as_deref() != Some(want.as_str()) {
+								return Err(format!("client received {raw_ret:?}, the server returned {want}"));
+							}
+						}
 						Ok(v) => {
 							if *v != ret(got) {
 								return Err("client received a value different from what the server returned".into());
@@ -723,13 +781,25 @@ async fn run(lines: Vec<String>, out: &mut Out) {
 }
 
 fn gen_lines(rng: &mut Rng, n: u64, lines: &mut Vec<String>) {
-	let mds = methods();
+	let all = methods();
 	// every registered name of the name-table items, once
 	for nd in items() {
 		for i in 0..nd.wire_names().len() {
 			lines.push(nd.line(i as u64));
 		}
 	}
+	// the wide-integer methods, from their own generator (the stream of the other methods stays as it was)
+	{
+		let mut wr = Rng::new(0x77_1de);
+		let wide: Vec<MD> = all.iter().filter(|m| m.key.starts_with("wide")).cloned().collect();
+		for i in 0..(8 + n / 20) {
+			let md = &wide[(i % 2) as usize];
+			let kind = if md.map { "m" } else { "a" };
+			let args: Vec<String> = md.params.iter().map(|p| if p.optional && wr.chance(1, 3) { "none".to_string() } else { hexs(&gen_arg(&mut wr, p.ty)) }).collect();
+			lines.push(format!("mcall {} {kind} {} {}", md.key, desc_token(md), args.join(" ")).trim_end().to_string());
+		}
+	}
+	let mds: Vec<MD> = all.into_iter().filter(|m| !m.key.starts_with("wide")).collect();
 	for _ in 0..n {
 		if rng.chance(1, 40) {
 			let nds = items();
